@@ -2,7 +2,7 @@
 must-pass, and dtype-class feasibility (which dtype kinds can reach which node)."""
 import ast
 import itertools
-from .terms import T, alts, walk, attr_chain, is_const
+from .terms import T, alts, walk, attr_chain, is_const, np_call
 from . import npkb
 
 
@@ -508,8 +508,24 @@ def subject_dtype_of(*names):
     parameter / attribute chains like 'self', 'values'"""
     want = set(names)
 
+    def strip(a):
+        # the dtype of x.ravel() / x.flatten() / x.copy() / np.asarray(x) is the dtype of x
+        if a.k == "attr" and a.a[1] == "dtype":
+            b = a.a[0]
+            for _ in range(4):
+                if b.k == "call" and b.a[0].k == "attr" and b.a[0].a[1] in ("ravel", "flatten", "copy") and not b.a[1]:
+                    b = b.a[0].a[0]
+                elif b.k == "call" and np_call(b, {"asarray", "asanyarray", "ravel"}) and len(b.a[1]) == 1 and not b.a[2]:
+                    b = b.a[1][0]
+                else:
+                    break
+            if b is not a.a[0] and len(alts(b)) == 1:
+                return T("attr", (b, "dtype"), a.node)
+        return a
+
     def f(t):
         for a in alts(t):
+            a = strip(a)
             c = attr_chain(a)
             if c is None:
                 return False
